@@ -23,9 +23,14 @@ import (
 	"net/url"
 	"os"
 	"path/filepath"
+	"runtime"
 	"strings"
 	"sync"
+	"sync/atomic"
 	"testing"
+	"time"
+
+	"github.com/Cloud-Foundations/golib/pkg/log"
 
 	"github.com/go-jose/go-jose/v4"
 	"github.com/go-jose/go-jose/v4/jwt"
@@ -580,4 +585,198 @@ func TestVerifC09Concurrent(t *testing.T) {
 			return c09ConcCase{Right: rapid.IntRange(0, 5).Draw(t, "right"), Wrong: rapid.IntRange(0, 4).Draw(t, "wrong"), Ordinary: rapid.IntRange(0, 6).Draw(t, "ordinary"),
 				Variant: rapid.SampledFrom([]string{"rsa-preloaded", "ed-preloaded", "none-preloaded"}).Draw(t, "variant")}
 		}, c09CheckConc)
+}
+
+// ------------------------------------------------------------ (d) ordinary requests placed INSIDE an injection
+
+// c09HookLogger wraps the state's logger: every log call made by the goroutine
+// that runs the injection becomes a scheduling point at which the harness
+// starts ordinary requests and gives them time to finish (they block if the
+// injection holds the state lock, and then simply finish later).
+type c09HookLogger struct {
+	log.DebugLogger
+	hook func()
+}
+
+func (l *c09HookLogger) Debugf(level uint8, format string, v ...interface{}) {
+	l.hook()
+	l.DebugLogger.Debugf(level, format, v...)
+}
+func (l *c09HookLogger) Debugln(level uint8, v ...interface{}) {
+	l.hook()
+	l.DebugLogger.Debugln(level, v...)
+}
+func (l *c09HookLogger) Debug(level uint8, v ...interface{}) {
+	l.hook()
+	l.DebugLogger.Debug(level, v...)
+}
+func (l *c09HookLogger) Printf(format string, v ...interface{}) {
+	l.hook()
+	l.DebugLogger.Printf(format, v...)
+}
+func (l *c09HookLogger) Println(v ...interface{}) {
+	l.hook()
+	l.DebugLogger.Println(v...)
+}
+
+func c09GID() int64 {
+	var buf [64]byte
+	n := runtime.Stack(buf[:], false)
+	var id int64
+	fmt.Sscanf(string(buf[:n]), "goroutine %d ", &id)
+	return id
+}
+
+type c09InterCase struct {
+	Variant string `json:"variant"`
+	// Points: at which log calls of the injection (0-based, modulo the number
+	// that occur) ordinary requests are started
+	Points []int `json:"points"`
+	WaitMs int   `json:"wait_ms"` // how long the injection pauses at such a point
+}
+
+// c09Probe: what one group of ordinary requests saw, in this order: a login
+// (is anything being signed?), then the published keys.
+type c09Probe struct {
+	loginOK bool
+	cookie  string
+	jwks    []byte
+	sshca   []byte
+	x509ca  []byte
+	done    bool
+}
+
+func c09CheckInter(c c09InterCase) *vResult {
+	res := &vResult{Desc: fmt.Sprint(c.Variant, c.Points, c.WaitMs), NonTrivial: true}
+	c09Setup()
+	state, dataDir := c09SealedVariant(c.Variant)
+	defer c09Close(state, dataDir)
+	cert := c09AdminClientCert()
+	var mu sync.Mutex
+	var probes []*c09Probe
+	var wg sync.WaitGroup
+	injector := int64(0)
+	calls := 0
+	points := map[int]bool{}
+	for _, p := range c.Points {
+		points[p] = true
+	}
+	inner, innerGlobal := state.logger, logger
+	hooked := &c09HookLogger{DebugLogger: inner}
+	state.logger, logger = hooked, hooked
+	defer func() { state.logger, logger = inner, innerGlobal }()
+	hooked.hook = func() {
+		if c09GID() != atomic.LoadInt64(&injector) {
+			return
+		}
+		n := calls
+		calls++
+		if !points[n] {
+			return
+		}
+		pr := &c09Probe{}
+		mu.Lock()
+		probes = append(probes, pr)
+		mu.Unlock()
+		fin := make(chan struct{})
+		wg.Add(1)
+		go func() {
+			defer wg.Done()
+			defer close(fin)
+			login := vServe(state.loginHandler, vFormRequest("POST", "/api/v0/login", url.Values{"username": {"username"}, "password": {"password"}}))
+			ck := login.Cookie(authCookieName)
+			jw := vServe(state.idpOpenIDCJWKSHandler, vNewRequest("GET", idpOpenIDCJWKSPath, nil))
+			sc := vServe(state.publicPathHandler, vNewRequest("GET", "/public/sshca", nil))
+			xc := vServe(state.publicPathHandler, vNewRequest("GET", "/public/x509ca", nil))
+			mu.Lock()
+			pr.loginOK = login.Code == 200 && ck != nil && ck.Value != ""
+			if pr.loginOK {
+				pr.cookie = ck.Value
+			}
+			pr.jwks, pr.sshca, pr.x509ca, pr.done = jw.Body, sc.Body, xc.Body, true
+			mu.Unlock()
+		}()
+		select {
+		case <-fin:
+		case <-time.After(time.Duration(c.WaitMs) * time.Millisecond):
+		}
+	}
+	done := make(chan *vResp, 1)
+	go func() {
+		atomic.StoreInt64(&injector, c09GID())
+		req := vFormRequest("POST", secretInjectorPath, url.Values{"ssh_ca_password": {c09Passphrase}})
+		(&vWorld{state: state}).vAttachTLS(req, cert)
+		done <- vServe(state.secretInjectorHandler, req)
+	}()
+	var resp *vResp
+	select {
+	case resp = <-done:
+	case <-time.After(120 * time.Second):
+		res.label("injection-did-not-finish")
+		res.NonTrivial = false
+		return res
+	}
+	atomic.StoreInt64(&injector, -1)
+	wg.Wait()
+	state.logger, logger = inner, innerGlobal
+	if resp.Panic != "" {
+		res.violate("panic:inject", "injection panicked: %s", firstLine(resp.Panic))
+		return res
+	}
+	if resp.Code != 200 || sealedStill(state) {
+		res.violate("right-passphrase-refused", "the right passphrase over TLS with an administrator certificate answered %d", resp.Code)
+		return res
+	}
+	res.label(fmt.Sprintf("log-points:%d", calls), fmt.Sprintf("probes:%d", len(probes)))
+	signers := []crypto.Signer{state.Signer}
+	if state.Ed25519Signer != nil {
+		signers = append(signers, state.Ed25519Signer)
+	}
+	during := 0
+	for i, pr := range probes {
+		if !pr.done || !pr.loginOK {
+			continue // answered as a sealed server: nothing was signed, nothing is owed
+		}
+		during++
+		// a session cookie was signed BEFORE these key listings were fetched:
+		// the listings must contain the keys that sign
+		var jwks jose.JSONWebKeySet
+		if json.Unmarshal(pr.jwks, &jwks) != nil {
+			res.violate("interleaved:jwks-unreadable", "probe %d: a login succeeded, the JWKS fetched after it is unreadable", i)
+			continue
+		}
+		verified := false
+		if tok, err := jwt.ParseSigned(pr.cookie, []jose.SignatureAlgorithm{jose.RS256, jose.ES256, jose.ES384, jose.EdDSA}); err == nil {
+			for _, k := range jwks.Keys {
+				var m map[string]interface{}
+				if tok.Claims(k.Key, &m) == nil {
+					verified = true
+				}
+			}
+		}
+		if !verified {
+			res.violate("interleaved:cookie-not-under-jwks", "probe %d (started at a log call inside the injection): a login was answered with a signed session cookie, and the JWKS fetched AFTER it (%d keys) does not verify that cookie", i, len(jwks.Keys))
+		}
+		for _, sg := range signers {
+			sp, err := ssh.NewPublicKey(sg.Public())
+			if err == nil && !bytes.Contains(pr.sshca, bytes.TrimSpace(ssh.MarshalAuthorizedKey(sp))) {
+				res.violate("interleaved:sshca-missing-signer", "probe %d: the server was already signing (login answered with a cookie) but /public/sshca fetched after it lacks the %s signing key", i, sp.Type())
+			}
+		}
+	}
+	res.label(fmt.Sprintf("signed-during-probes:%v", during > 0))
+	c09AfterUnseal(res, state)
+	return res
+}
+
+func TestVerifC09Interleaved(t *testing.T) {
+	vRunRapid(t,
+		"rapid: one right-passphrase injection whose own log calls are scheduling points: at 1-4 generated points {login, then JWKS, SSH CA and X.509 CA listings} are started on another goroutine and given 5-60 ms before the injection continues (they block while the injection holds the state lock and finish afterwards) x preloaded-key variants; oracle: whenever such a login was answered with a signed cookie, the key listings fetched after it verify the cookie / list every signing key; afterwards the usual post-unseal checks; every case is non-trivial; distinct = (variant, points, wait)",
+		func(t *rapid.T) c09InterCase {
+			return c09InterCase{
+				Variant: rapid.SampledFrom([]string{"rsa-preloaded", "ed-preloaded", "none-preloaded"}).Draw(t, "variant"),
+				Points:  rapid.SliceOfNDistinct(rapid.IntRange(0, 5), 1, 4, func(i int) int { return i }).Draw(t, "points"),
+				WaitMs:  rapid.SampledFrom([]int{5, 20, 60}).Draw(t, "wait"),
+			}
+		}, c09CheckInter)
 }
